@@ -16,14 +16,14 @@ CATS = {
     "early-stop": "only changes whether an iteration stops early or goes on after the answer is known",
     "prefilter": "bounding-box or range pre-check in front of an exact test: the exact test gives the same answer",
     "nil-guard": "nil receiver / argument guard: not reachable with objects obtained from Parse or the constructors",
-    "redundant": "redundant with a neighbouring statement that sets / tests the same thing (read individually)",
+    "redundant": "redundant with a neighbouring statement that sets / tests the same thing, or implied by it (the raycast, ringSegmentSides, processPoints, unionRects, IntersectsSegment and parser cases were read one by one, the rest matched by rule)",
     "circle-approx": "shape or step count of a Circle's polygon approximation, radius normalisation beyond a circumference: outside what C13 states "
                      "(closed ring centred on the centre, rectangle contains the centre; radii up to half the circumference)",
     "accessor": "accessor or exported variable no listed property speaks about (IsSimple, IsPoint, Z, Indexed, WorldPolygon, Circle.NumPoints, ...)",
     "wider-rect": "makes a radius-search rectangle wider or a degenerate one slightly larger: still covers the disc (C14 has no tightness clause)",
     "tolerance-band": "differs only for a point exactly on a circle's rim / a boundary of measure zero inside the stated tolerance",
     "empty-part": "differs only for a series too short to occupy space, where Rect / flags are not asserted",
-    "caught-later": "a gap when the sweep ran; the generator or oracle was extended afterwards and the check now reports it (re-run by hand)",
+    "caught-later": "a gap when the sweep ran; the generator or oracle was extended afterwards and the check now reports it (each re-run by hand with tools/mutant.sh against the final harness)",
     "unexamined": "not examined individually",
 }
 
@@ -41,15 +41,15 @@ EXPLICIT = {
 }
 for _cat, _ids in {
     "accessor": [219, 2381, 2382, 2390, 2458, 2459, 2461, 2500, 2501, 2663, 2734, 2735, 2762, 2763, 2765, 2767, 10126, 10142, 10192, 11062, 11126, 11164,
-                 11195, 11239, 11331],
+                 11195, 11239, 11331, 11382, 11471],
     "caught-later": [470, 1208],
     "index-tuning": [196, 10940, 2271, 11249, 11250, 11251],
     "prefilter": [1205, 1206, 1331],
-    "early-stop": [11102, 11124, 11151, 11220],
+    "early-stop": [11102, 11124, 11151, 11220, 11447, 11469],
     "redundant": [521, 523, 542, 543, 616, 647, 648, 649, 652, 653, 1123, 1133, 1212, 1213, 1214, 1217, 1218, 1219, 1235, 1241, 1252, 1269, 1272, 1274,
                   1278, 1279, 1280, 1296, 1327, 1349, 1373, 1375, 1770, 10913, 10914, 2281, 2289, 2297, 2309, 2339, 2341, 2343, 2345, 11273, 2437, 2438,
                   2536, 2539, 2552, 2554, 2557, 2559, 2561, 2564, 2578, 2580, 2714, 10008, 10046, 10084, 10118, 10131, 10135, 10136, 10190, 11060,
-                  11076, 11158, 11193, 11233, 10269, 10270, 10271, 10295, 10319, 10968, 10970, 11011, 11020, 11022, 11026],
+                  11076, 11158, 11193, 11233, 11275, 11335, 11410, 10269, 10270, 10271, 10295, 10319, 10968, 10970, 11011, 11020, 11022, 11026],
 }.items():
     for _i in _ids:
         EXPLICIT[_i] = _cat
